@@ -133,7 +133,7 @@ def build_variant_with(variant, comp):
             objs.append(os.path.join(d, "sched.o"))
             objs.append(os.path.join(d, "blockwrap.o"))
             wrap = ["-Wl," + ",".join("--wrap=" + f for f in ("pthread_once", "pthread_mutex_lock", "pthread_mutex_trylock",
-                                                              "__cxa_guard_acquire", "__cxa_guard_release", "__cxa_guard_abort", "syscall"))]
+                                                              "pthread_mutex_unlock", "__cxa_guard_acquire", "__cxa_guard_release", "__cxa_guard_abort", "syscall")), "-ldl", "-rdynamic"]
             if variant == "tsan":
                 objs.append(os.path.join(d, "atomwrap.o"))
                 wrap += ["-Wl," + ",".join(f"--wrap=__tsan_atomic{w}_" + f for w in (8, 32) for f in
